@@ -221,17 +221,19 @@ theorem addTarget_inv {ms : Option Nat} {c : ChanState} {qs : List Nat} (hi : Ch
       refine ⟨⟨hi.1, ?_⟩, Ext_snoc _ _⟩
       show InvR (c.ctx ms) (c.slots ++ [_]).reverse
       rw [this]; exact ⟨rfl, rfl, rfl⟩
-  · apply bind_good (lift_good hi (fun c' h => waitForFall_inv hi h))
-    intro c1 hi1
-    apply lift_good hi1
-    intro c' h
-    cases hl : c1.last with
-    | error e => simp [hl, bind, Except.bind] at h
-    | ok last =>
-      simp only [hl, bind, Except.bind] at h
-      split at h
-      · injection h with h; subst h; exact Good.rfl' hi1
-      · obtain ⟨rest, hr⟩ := last_ok hl
+  · cases hsame : sameTargets c qs with
+    | true => exact Good.rfl' hi
+    | false =>
+      simp only [Bool.false_eq_true, if_false]
+      apply bind_good (lift_good hi (fun c' h => waitForFall_inv hi h))
+      intro c1 hi1
+      apply lift_good hi1
+      intro c' h
+      cases hl : c1.last with
+      | error e => simp [hl, bind, Except.bind] at h
+      | ok last =>
+        simp only [hl, bind, Except.bind] at h
+        obtain ⟨rest, hr⟩ := last_ok hl
         have hinv := hi1.2; rw [hr] at hinv
         have hhead := InvR_head hinv
         generalize hδ : (if c1.cfg.fixedRetarget ≠ 0 then
